@@ -208,7 +208,9 @@ class Unit:
     def _run_proof_once(self, proof, gb, extra_flags=(), tag=''):
         cmd = self.cbmc_cmd(proof, gb, extra_flags)
         outp = os.path.join(self.work, f"{proof['name']}{tag}.cbmc.json")
-        solver = proof.get('solver', 'minisat')
+        # default: MiniSat and CaDiCaL race (MiniSat alone proved erratic: the same proof 9 s with CaDiCaL, > 900 s with MiniSat, and vice versa)
+        explicit = any(c in ('--sat-solver', '--external-sat-solver') for c in proof.get('checks', []))
+        solver = proof.get('solver', 'minisat' if explicit else 'portfolio')
         if solver == 'portfolio':
             rc, dt, cmd = run_portfolio(cmd, proof.get('timeout', 600), proof.get('mem_gb', 8), outp)
             err = ''
